@@ -32,14 +32,14 @@ import (
 func init() {
 	Registry["C20"] = &Prop{
 		Plan: func(tier string) Plan {
-			return Plan{Level: "exploration", NCases: pick(tier, 120, 15000), Batch: 3, CaseTimeout: 240,
+			return Plan{Level: "exploration", NCases: pick(tier, 120, 6000), Batch: 3, CaseTimeout: 240,
 				Rule: "one case = a node wired as cmd/option.Run wires it (REAL Prometheus client with the cluster label, storage metrics wrapper, backend, etcd and native servers) receiving a burst of 8 concurrent first requests and then 80 generated requests: request structs of etcd Txn/Range/Watch/Lease and native Create/Update/Delete/Get/Range/Count/ListPartition/RangeStream/Compact/Watch are filled with PRNG values biased to hostile ones (keys of arbitrary bytes incl. invalid UTF-8, empty, containing '$' and the internal magic prefix; revisions 0, +-1, MinInt64, MaxInt64, 1888, far future; negative and huge limits; missing sub-messages; unsupported shapes), marshalled and unmarshalled (so exactly the protobuf-decodable ones) and written to disk before being sent. " +
 					"oracle: the call returns within a watchdog; no panic (recovered in the calling goroutine, process death otherwise, the last logged request being the witness); a recording metrics decorator never sees one metric name with two label-name sets or kinds; after every request a probe create + Range(rev=0) + a pre-opened watcher see the new key, and the notify-deposit conservation monitor (C04) gives the wedge verdict without a timeout. " +
 					"Every 24th case is instead a tour of the metric call sites a healthy stub-elected leader never reaches: two complete nodes built by server.NewServer over one store (real Campaign, real peer HTTP endpoint, real revision syncer, gRPC with the production interceptors), one leading and one following, every request type on both, lease/cluster calls, an unknown outcome repaired by the retry loop, compactions with a failing delete and a failing record write, an iterator error, a watcher that overflows, the follower losing its leader's endpoint; a process-wide table of (metric name -> kind, label names) must stay single-valued. " +
 					"non-trivial = case that sent >=10 distinct request types incl. >=1 watch on a non-UTF-8 prefix, >=1 negative revision and >=1 unsupported txn; distinct by request digest",
 				Assumptions: []string{"3 of 4 cases call the handlers in-process with protobuf-round-tripped requests, every 4th goes through a real loopback gRPC connection with the metrics client's server options", "in the fuzz cases the election is a stub reporting 'leader'; the tour cases run the real election; TLS call sites and leader.election.lost (which ends the process) are not reachable",
 					"metric call sites reached are listed in evidence; unreached ones are not claimed"},
-				MinConcl: pick(tier, 90, 12000)}
+				MinConcl: pick(tier, 90, 4800)}
 		},
 		Name: func(c *harness.Case) string {
 			if c.Index%24 == 11 {
@@ -161,8 +161,8 @@ func runC20(c *harness.Case) {
 	}()
 	rm := harness.NewRecMetrics(true)
 	// in every other group of four cases the engine misbehaves while a hostile request is being served (and only then):
-	// a quarter of the write batches fail - definitely, or with an unknown outcome, applied or not - and one in eight
-	// point reads and iterator steps answers an error. The request may fail; the node must not panic or wedge.
+	// a quarter of the write batches fail - definitely, or with an unknown outcome, applied or not -, one in eight
+	// point reads and one in 96 iterator steps answer an error. The request may fail; the node must not panic or wedge.
 	faulty := (c.Index/4)%2 == 1
 	fw := harness.NewWrap(eng.KV)
 	var faultsArmed int32
@@ -199,7 +199,8 @@ func runC20(c *harness.Case) {
 			return nil
 		}
 		fw.IterFault = func(start, end []byte, k int) error {
-			if atomic.LoadInt32(&faultsArmed) == 1 && fdraw(8) == 0 {
+			// (rarer than the others: the scanner answers every failed step with a retry after 1 s and then 3 s)
+			if atomic.LoadInt32(&faultsArmed) == 1 && fdraw(96) == 0 {
 				atomic.AddUint64(&faultsInjected, 1)
 				return errors.New("injected iterator error")
 			}
